@@ -79,7 +79,7 @@ _CLIENT_TEXT = ("Sequential Lean model of the client role (Connect, publish/subs
                 "compared event by event with a reference client written from MQTT 3.1.1 and the property text. %s")
 CLAIMS['C12'] = dict(category='exploration', ref='8 C12', text=_CLIENT_TEXT % "Theorems: under construction. Known finding E5 (ack processed before registration is lost) replayed on every run.",
                      technique="Lean 4 executable model + reference specification, differential correspondence with forced interleaving; proofs in progress")
-CLAIMS['C20'] = dict(category='exploration', ref='8 C20', text=_CLIENT_TEXT % "Theorems: under construction. Known finding E9 (callback invoked once per matching filter of one request) replayed on every run.",
+CLAIMS['C20'] = dict(category='exploration', ref='8 C20', text=_CLIENT_TEXT % "Theorems: under construction.",
                      technique="Lean 4 executable model + reference specification, differential correspondence; proofs in progress")
 
 CLAIMS['C02'] = dict(category='proof', ref='5 Core E, 8 C02',
@@ -258,16 +258,18 @@ CLAIMS['C12'] = dict(category='proof', ref='8 C12', text=_CLIENT_TEXT % (
     "C12_terminal_only_by_own_ack, C12_release_eager); pings, any number outstanding: every completion exactly once in call order, the n-th PINGRESP "
     "completes the n-th Ping (C12_ping_exactly_once_fifo, C12_ping_completion_timing, C12_two_pings_both_complete); identifiers in flight pairwise distinct in every reachable state and non-zero (C12_inflight_ids_distinct, "
     "C12_identifier_nonzero_iff/_partial); refinement of the reference client event by event on admitted histories (C12_refines_spec_partial/_step) with closed "
-    "counterexamples showing every excluded class is needed (E5 early ack, E9, B3, late PUBREC, SUBACK code, auto id); several outstanding pings are "
-    "admitted (C12_refines_spec_pings; the single ping slot was repaired, its witness is a regression case). Known finding E5 is "
+    "counterexamples showing every excluded class is needed (E5 early ack, B3, late PUBREC, SUBACK code, auto id); several outstanding pings and "
+    "overlapping filters within one Subscribe request are admitted (C12_refines_spec_pings, C12_refines_spec_overlapping_filters; the single ping slot and "
+    "E9 - one callback invocation per matching filter - were repaired, their witnesses are regression cases). Known finding E5 is "
     "replayed on the real code on every run with the interleaving forced through the ack-window hook.") +
     " PARTIAL: timing ('promptly') is not modelled; the step granularity of a sending call is {write, register} as delimited by the hook.")
 CLAIMS['C20'] = dict(category='proof', ref='8 C20', text=_CLIENT_TEXT % (
     "Theorems (10): Connect succeeds iff CONNACK code 0, returns the refusal code otherwise, and changes nothing in every non-success case (C20_connect); "
     "an inbound QoS 2 PUBLISH is not dispatched at PUBLISH time, duplicates are suppressed, it is dispatched once at PUBREL in FIFO order "
-    "(C20_qos2_*); after the SUBACK a message invokes the request's callback exactly once iff a granted filter matches under section 4.7 "
-    "(C20_dispatch_partial, _qos2_partial, C20_dispatch_nonoverlapping with a static non-overlap check; E9 counterexample C20_dispatch_counterexample); after "
-    "the UNSUBACK a callback held only under listed filters is never invoked again (C20_unsubscribe_stops).") +
+    "(C20_qos2_*); after the SUBACK a message invokes the request's callback exactly once iff a granted filter matches under section 4.7, however many "
+    "of the request's filters match it (C20_dispatch, C20_dispatch_qos2, C20_dispatch_overlapping_once; the invocation carries the highest QoS the matching "
+    "filters allow, independent of Go map order: C20_dispatch_highest_qos; E9 was repaired, its witness is a regression case); after "
+    "the UNSUBACK a callback held only under listed filters is never invoked again and any other callback exactly once per matching message (C20_unsubscribe_stops).") +
     " PARTIAL: 'without leaving goroutines behind' and real sockets/timeouts are runtime facts outside the model (the harness observes Connect results only).")
 
 CLAIMS['C05'] = dict(category='proof', ref='5 Core A/E/F, 8 C05',
